@@ -460,7 +460,7 @@ class Gen:
                 parts.append(self.comment())
             if r.chance(1, 3):
                 parts.append(self.distractor(2) + "\n")
-            ctx = r.below(13)
+            ctx = r.below(17)
             e = self.expr(3) if r.chance(1, 4) else self.elem(2)
             if r.chance(1, 5):
                 e = r.pick(SCOPE_SPECIAL)       # lowerings that need a temporary, a capture or a helper
@@ -486,6 +486,15 @@ class Gen:
                 parts.append(f"export const ad{len(parts)} = ({{ icon = {e}, label }}, [first = {self.elem(1)}] = []) => {{ const k = 1; return {self.elem(1)} }};\n")
             elif ctx == 12:
                 parts.append(f"const o{len(parts)} = {{ m(p = {e}) {{ return p }}, k: function (q = {self.elem(1)}) {{ return q }}, async *g(r = {e}) {{ yield r }} }};\n")
+            elif ctx == 13:
+                # directive prologues and other JSX-free statements around the JSX of a function body
+                parts.append(f"function u{len(parts)}(items) {{ 'use strict'; const k = 1; return {e}; }}\n")
+            elif ctx == 14:
+                parts.append(f"class U{len(parts)} {{ m() {{ \"use strict\"; return {e} }} static s = () => {{ 'use strict'; return {self.elem(1)} }} }}\n")
+            elif ctx == 15:
+                parts.append(f"const z{len(parts)} = function () {{ 'use strict'; 'second directive'; if (a) {{ 'in block'; b = {e}; }} return null }};\n")
+            elif ctx == 16:
+                parts.append(f"const y{len(parts)} = (p) => {{ 'use strict'; foo = {e}; return foo }};\n")
             else:
                 parts.append(f"({e});\n")
         # JSX-free code AFTER the JSX statements as well: it must come back untouched
@@ -560,6 +569,14 @@ CTX_PREFIX = [
 ]
 
 
+CTX_PROBES = [
+    "<_Fragment>{foo}t</_Fragment>", "<_Fragment key=\"k\"><b>x</b></_Fragment>", "<_Fragment>root</_Fragment>",
+    "<Fragment>x{a}</Fragment>", "<><_Fragment>in</_Fragment></>", "<KeepAlive>{a}</KeepAlive>", "<Comp>{fn()}</Comp>",
+    "<Comp>{b}</Comp>", "<div on={{ click: fn }}>t</div>", "<Unknown>{a}</Unknown>", "<input v-model={val} />",
+    "<Comp><_Fragment>{a}</_Fragment></Comp>", "<div><_Fragment>t</_Fragment><Comp>{g()}</Comp></div>",
+]
+
+
 def gen_ctx_cases(seed, n, start_id=0):
     """(prefix, JSX statement, suffix) against the same statement alone: `src` is the composed
     module, `src_alt` the module with the statement only"""
@@ -569,6 +586,11 @@ def gen_ctx_cases(seed, n, start_id=0):
         g.nojsx = True
         r = g.r
         el = g.elem(2) if r.chance(9, 10) else "<>" + g.children(2) + "</>"
+        if r.chance(1, 6):
+            # probes whose lowering touches module-wide state: the user's alias of Fragment, the
+            # Fragment / isSlot / transformOn / resolveComponent helpers, temporaries, directives
+            el = r.pick(CTX_PROBES)
+            g.f("ctxprobe")
         site = "const __site = " + el + ";\n"
         pre = "".join(r.pick(CTX_PREFIX) for _ in range(r.below(4)))
         suf = "".join(r.pick(CTX_PREFIX) for _ in range(r.below(3)))
@@ -658,6 +680,13 @@ def gen_matrix_cases(start_id=0):
             for value in ["val", "[val]", "[foo.bar, 'title']", "[val, ['trim']]", "[val, 'title', ['trim', 'lazy']]", "[val, arg]",
                           "[val, 'a-b', []]", "[val, null, ['x']]", "[a[0], 'title', y]"]:
                 add("<%s %s={%s} id=\"i\" />" % (host, name, value), k); k += 1
+    # v-models: the same-order sequence of the v-model attributes it lists (static and computed arguments)
+    for host in ["Comp", "input", "NS.Item"]:
+        for value in ["[[val]]", "[[val, 'title']]", "[[val], [foo.bar, 'title']]", "[[val, arg]]",
+                      "[[foo.bar, 'first'], [a[0], arg, ['trim']]]", "[[val], [b, arg]]", "[[val, ['lazy']], [b, 'x', ['trim']]]",
+                      "[[val, arg, ['m']], [b]]", "[[val, foo.bar], [b, 'title'], [a[0], arg]]"]:
+            add("<%s v-models={%s} id=\"i\" />" % (host, value), k); k += 1
+            add("<%s title=\"t\" v-models={%s} onFoo={fn} />" % (host, value), k); k += 1
     for host in ["div", "Comp"]:
         for name in ["v-custom", "vCus", "v-custom:arg", "v-custom_m", "v-custom:arg_m_n", "v-validate", "v-show", "vShow:x_y",
                      "vXAxis", "v-BToggle:left_once", "vUIState_m"]:
@@ -699,7 +728,9 @@ ATOM_TYPES = ["string", "number", "boolean", "object", "bigint", "symbol", "null
               "Extract<string | string[], string | object>", "Extract<Date | number, object>", "Extract<number | Map<string, number>, object | number>",
               "Exclude<string | string[], number>", "NonNullable<string[] | null>", "null | NonNullable<string | undefined>",
               "(Date | null) | NonNullable<number | null>",
-              "I0['a']", "J1['a']", "J1['b']", "J1['zz']", "I0[number]", "J1['a' | 'b']"]
+              "I0['a']", "J1['a']", "J1['b']", "J1['zz']", "I0[number]", "J1['a' | 'b']",
+              # indexed accesses the resolver cannot see through: nested, on a `typeof`, on an array's property
+              "Obj1['k']['size']", "Obj1['k']['n']['length']", "(typeof SIZES)[number]", "string[]['length']"]
 OBJ = {"object", "array", "date", "map", "set", "weakmap", "promise", "regexp", "error"}
 # JavaScript value kinds a type can have; "ANY" = anything; None = outside the property's grammar
 ATOM_KINDS = {
@@ -719,6 +750,8 @@ ATOM_KINDS = {
     # indexed access on an interface: own key, inherited key, absent key (not TypeScript), number index
     "I0['a']": {"number"}, "J1['a']": {"number"}, "J1['b']": {"number"}, "J1['zz']": None, "I0[number]": None,
     "J1['a' | 'b']": {"number"},
+    "Obj1['k']['size']": {"string"}, "Obj1['k']['n']['length']": {"number"}, "(typeof SIZES)[number]": {"string"},
+    "string[]['length']": {"number"},
     "Extract<string | string[], string | object>": {"string", "array"}, "Extract<Date | number, object>": {"date"},
     "Extract<number | Map<string, number>, object | number>": {"number", "map"},
     "Exclude<string | string[], number>": {"string", "array"}, "NonNullable<string[] | null>": {"array"},
@@ -737,7 +770,8 @@ def kinds_union(a, b):
 
 
 TYPE_PRELUDE = ("class Foo {}\nfunction fn(a: number, b: string) {}\ntype T0 = string | number;\ninterface I0 { a: 1; (): void }\ninterface J1 extends I0 { b: 2 }\n"
-                "type Arr0 = boolean[];\ntype Tup0 = [string, number];\ntype Obj0 = { k: Date; j: number; m(): void; [x: string]: any };\n")
+                "type Arr0 = boolean[];\ntype Tup0 = [string, number];\ntype Obj0 = { k: Date; j: number; m(): void; [x: string]: any };\n"
+                "type Obj1 = { k: { size: 'sm' | 'lg'; n: number[] } };\nconst SIZES = ['sm', 'md'] as const;\n")
 PROP_KEYS = ["foo", "bar", "'baz-q'", "qux", "msg", "'onUpdate:x'", "count", "1", "'label'", "'size'"]
 
 
@@ -769,7 +803,7 @@ class TGen(Gen):
         if d > 0 and k == 0:
             a, ka, ta = self.atype(d - 1); b, kb, tb = self.atype(d - 1)
             self.f("atype:union")
-            return a + " | " + b, kinds_union(ka, kb), ta | tb
+            return a + " | " + b, kinds_union(ka, kb), ta | tb | {"union"}
         if d > 0 and k == 1:
             a, ka, ta = self.atype(d - 1)
             return "(" + a + ")", ka, ta
@@ -798,6 +832,8 @@ class TGen(Gen):
             tags.add("empty_obj")
         if t in ("J1['a']", "J1['a' | 'b']"):
             tags.add("inherited_index")
+        if t in ("Obj1['k']['size']", "Obj1['k']['n']['length']", "(typeof SIZES)[number]", "string[]['length']"):
+            tags.add("unres_index")
         return t, ATOM_KINDS.get(t), tags
 
     def members(self, M):
@@ -823,7 +859,7 @@ class TGen(Gen):
         """a type expression denoting exactly the prop map M"""
         r = self.r
         ops = ["lit"] if d <= 0 else ["lit", "alias", "iface", "extends", "extends_alias", "merge", "merge_extends", "inter", "paren", "partial", "partial", "required", "required",
-                                      "pick", "pick", "omit", "omit", "index", "chain"]
+                                      "pick", "pick", "omit", "omit", "inter_omit", "index", "chain"]
         op = r.pick(ops)
         force = getattr(self, "force_op", None)
         if force and d > 0:
@@ -834,7 +870,9 @@ class TGen(Gen):
             op = "lit"
         if op == "required" and not (M and all(not m[1] for m in M)):
             op = "lit"
-        if op in ("pick", "omit") and any(m[0].isdigit() for m in M):
+        if op == "inter_omit" and not M:
+            op = "lit"
+        if op in ("pick", "omit", "inter_omit") and any(m[0].isdigit() for m in M):
             op = "lit"                    # `'1'` is not a key of `{ 1: … }` in TypeScript
         self.f("enc:" + op)
         if op == "lit":
@@ -897,6 +935,15 @@ class TGen(Gen):
             return "Pick<%s, %s>" % (self.enc(M + extra, d - 1), keys)
         if op == "omit":
             return "Omit<%s, 'zextra' | 'z-other'>" % self.enc(M + extra, d - 1)
+        if op == "inter_omit":
+            # a key declared by the operand to the LEFT of an Omit<> that omits the same key from
+            # another type: the left declaration stands
+            m1, m2 = self.split(M)
+            k0 = m1[0][0]
+            shadow = [(k0, True, "symbol", "prop", {"symbol"}, [])]
+            left = "{ " + self.members(m1) + " }"
+            right = "Omit<%s, '%s'>" % (self.enc(shadow + m2, d - 1), k0.strip("'"))
+            return left + " & " + right
         if op == "index":
             nm = self.fresh("W")
             if r.chance(1, 2):
@@ -942,7 +989,7 @@ class TGen(Gen):
         pool = ["change", "update:modelValue", "before-close", "a", "b"]
         for _ in range(r.below(4)):
             names.append(pool.pop(r.below(len(pool))))
-        form = r.below(9)
+        form = r.below(10)
         self.f("emits:%d" % form)
         if not names:
             return r.pick(["{}", "() => void"]), []
@@ -974,6 +1021,13 @@ class TGen(Gen):
                 self.decl("type %s = { '%s': [v: number] };" % (b, names[0]))
                 self.decl("interface %s extends %s { %s }" % (nm, b, "; ".join("'%s': []" % n for n in names[1:])))
             return nm, names[1:] + names[:1]
+        if form == 9 and len(names) >= 2:
+            # an interface written in two parts, the LATER part naming a parent
+            nm = self.fresh("E"); b = self.fresh("E")
+            self.decl("interface %s { (e: '%s'): void }" % (b, names[1]))
+            self.decl("interface %s { (e: '%s'): void }" % (nm, names[0]))
+            self.decl("interface %s extends %s { %s }" % (nm, b, "; ".join("(e: '%s'): void" % n for n in names[2:])))
+            return nm, names
         if form == 5:
             ev = self.fresh("Ev"); self.decl("type %s = %s;" % (ev, lits))
             return "(e: %s) => void" % ev, names
@@ -1011,7 +1065,7 @@ class TGen(Gen):
                 v = r.pick(["1", "'s'", "true", "null"])
                 items.append("%s: %s" % (k, v)); per[kk] = ["literal", v]
             elif c == 2:
-                v = r.pick(["fn()", "[1]", "{ a: 1 }", "() => 1", "function () { return 2 }", "foo.bar"])
+                v = r.pick(["fn()", "[1]", "{ a: 1 }", "() => 1", "function () { return 2 }", "foo.bar", "undefined"])
                 items.append("%s: %s" % (k, v)); per[kk] = ["fnvalue" if v.startswith("()") or v.startswith("function") else "expr", v]
             elif c == 3 and k.isidentifier():
                 items.append(k); per[kk] = ["shorthand", k]
